@@ -12,6 +12,9 @@ line is not valid UTF-8 (`read_line` into a `String` validates **the whole appen
 returned — so a multi-byte character that is split over several `read`s / buffer refills is validated in one piece;
 the line has been consumed and the string is left empty).
 
+Every function takes the text functions `T : Txt` (`trim_end`, header-line split): `Txt.unicode` for the Rust code
+(`char::is_whitespace`), `Txt.ascii` for the list models (`RbV/Model/UniWs.lean`).
+
 Second part: the list models *with* the UTF-8 check (`faRecordsU`, `fqRecordsU`) — what the stateful readers compute,
 as a function of `splitLines file` alone (`RbV/Lemmas/FastxStream.lean`), for **every** byte string.
 -/
